@@ -69,7 +69,7 @@ def run_cases(ctx, sub, cases, label, nontrivial=lambda c: True, args=(), timeou
                 raise vlib.MachineryError("route harness %s could not materialise a case: %s" % (sub, f.get("detail")))
             ctx.report(sig, (f.get("detail") or "")[:1500], case=case, harness="route", cmd=sub)
         ctx.count({k: v for k, v in c.items() if k != "id"}, nontrivial=nontrivial(c))
-    if checked == 0:
+    if checked == 0 and not any(r.get("fails") or r.get("gray") for r in out):
         raise vlib.MachineryError("route harness %s compared nothing (%s)" % (sub, label))
     ctx.traces(len(out))
     ctx.cov.setdefault("probe_evaluations", 0)
@@ -108,7 +108,7 @@ def check_c10(ctx):
     if not q:
         g3 = dict(g1, ENTRIES=3, DEFS='{"p1"}', VIPPRODS='{"p2"}')
         ctx.cov["constants"]["Gen_Host"].append(dict(g3, mode="simulate"))
-        cases += gen(ctx, "GenHost", "Gen_Host.cfg", g3, mode="sim", num=6000, depth=2, timeout=1500)
+        cases += gen(ctx, "GenHost", "Gen_Host.cfg", g3, mode="sim", num=3000, depth=2, timeout=2400)
     cases = dedup(cases)
     run_cases(ctx, "host", cases, "C10", nontrivial=lambda c: len(c["t"]) > 0)
 
@@ -138,8 +138,8 @@ def check_c11(ctx):
     cases += gen(ctx, "GenBasic", "Gen_Basic.cfg", g1)
     # larger tables: random walks of GenBasic (each walk prints the tables of 0..RULES pairs it passes)
     for d, num in (({"ALPHA": "small", "RULES": 3}, 60), ({"ALPHA": "full", "RULES": 4}, 40)) if q else \
-                  (({"ALPHA": "full", "RULES": 2}, 0), ({"ALPHA": "small", "RULES": 3}, 1500),
-                   ({"ALPHA": "full", "RULES": 4}, 1200)):
+                  (({"ALPHA": "full", "RULES": 2}, 0), ({"ALPHA": "small", "RULES": 3}, 600),
+                   ({"ALPHA": "full", "RULES": 4}, 400)):
         ctx.cov["constants"]["Gen_Basic"].append(dict(d, mode="simulate num=%d" % num if num else "mc"))
         if num:
             cases += gen(ctx, "GenBasic", "Gen_Basic.cfg", d, mode="sim", num=num, depth=d["RULES"] + 2, timeout=2400)
@@ -201,7 +201,7 @@ def check_c13(ctx):
         gens = [({"KINDS": allk, "DEV": 1}, None), ({"KINDS": '{"gslb", "ctable", "file"}', "DEV": 2}, None),
                 ({"KINDS": '{"sdc"}', "DEV": 2}, 400), ({"KINDS": '{"sdc"}', "DEV": 3}, 150)]
     else:
-        gens = [({"KINDS": allk, "DEV": 2}, None), ({"KINDS": allk, "DEV": 3}, 5000)]
+        gens = [({"KINDS": allk, "DEV": 2}, None), ({"KINDS": allk, "DEV": 3}, 2500)]
     ctx.cov["constants"]["Gen_Conf"] = []
     for d, num in gens:
         ctx.cov["constants"]["Gen_Conf"].append(dict(d, mode="simulate num=%d" % num if num else "mc"))
